@@ -355,6 +355,9 @@ class C12:
             st.tuples(st.just('insrange'), st.lists(key, min_size=0, max_size=6)),
             st.tuples(st.just('clear'), st.just(0)),
             st.tuples(st.just('copy'), st.just(0)),
+            # a run of inserts placed relative to the current contents (just below the maximum, above it, below the minimum, in the middle, the maximum again):
+            # long enough to walk through the capacity steps (30, 39, 50, ... or size + 30%) with every kind of landing position
+            st.tuples(st.just('burst'), st.tuples(st.sampled_from(['before_max', 'before_max', 'after_max', 'before_min', 'mid', 'dup_max']), st.integers(1, 45))),
         )
         init = st.lists(key, min_size=0, max_size=40, unique=True).map(sorted)
         return st.fixed_dictionaries({'kind': st.sampled_from(['g', 'f']), 'init': init, 'from_array': st.booleans(),
@@ -384,7 +387,31 @@ class C12:
                 raise Violation('C12: presorted_set<%s> after %s: contents %r size %d, model %r\nsequence: %s' % (
                     kind, what, s['keys'], s['size'], model, pbt.jdump(case)))
         check_state(st0, 'construction')
+        def rel_key(where):
+            if not model: return 30000
+            if where == 'after_max': return model[-1] + 499 if model[-1] + 499 <= 65535 else None
+            if where == 'before_min': return model[0] - 1 if model[0] > 0 else None
+            if where == 'dup_max': return model[-1]
+            if where == 'before_max':
+                lo = model[-2] if len(model) > 1 else -1
+                return (lo + model[-1] + 1) // 2 if model[-1] - lo >= 2 else None
+            i = len(model) // 2
+            a, b = (model[i - 1] if i else -1), model[i]
+            return (a + b + 1) // 2 if b - a >= 2 else None
+        ops = []
         for name, arg in case['ops']:
+            if name == 'burst':
+                ops += [('insrel', arg[0])] * arg[1]
+            else:
+                ops.append((name, arg))
+        for name, arg in ops:
+            if name == 'insrel':
+                key = rel_key(arg)
+                if key is None:
+                    key = rel_key('after_max')
+                if key is None:
+                    continue
+                name, arg = 'ins', key
             if name == 'ins':
                 ans = ex.call('ps %s ins %d' % (kind, arg))
                 want = arg not in model
